@@ -309,6 +309,18 @@ def assemble(unit, vacuity=False):
         blocks[into].append((fn["id"], text))
         finfo[fn["id"]] = {"source": "%s:%d %s" % (fn["file"], f.line, fn["name"]), "source_sha": sha(raw),
                            "rules": fired, "verus_name": fn.get("verus_name", fn["id"])}
+        # twins: the SAME extracted body under another name with another contract, so that a clause that belongs to a
+        # different property is a separate obligation (each property's check only answers for its own clause)
+        for tw in fn.get("twin", []):
+            sig_t, n = re.subn(r"\bfn\s+(\w+)", "fn %s" % tw["rename"], sig, count=1)
+            if n != 1:
+                raise Broken("twin %s: no fn name to rename in %s" % (tw["id"], fn["id"]))
+            ttext = attrs + "    " + sig_t + "\n" + tw["contract"].rstrip() + "\n    " + body_text
+            if vacuity:
+                ttext += "\n" + attrs + "    " + sig_t.replace("fn %s" % tw["rename"], "fn %s__vac" % tw["rename"], 1) + "\n" + _falsify(tw["contract"]) + "\n    " + body_text
+            blocks[into].append((tw["id"], ttext))
+            finfo[tw["id"]] = {"source": "%s:%d %s" % (fn["file"], f.line, fn["name"]), "source_sha": sha(raw),
+                               "rules": fired, "verus_name": tw.get("verus_name", tw["rename"])}
     out = ["// GENERATED by /verif/lib/verus_run.py from /repo's working tree -- do not edit", "#![allow(unused)]",
            "use vstd::prelude::*;"]
     out += spec.get("unit", {}).get("uses", [])
